@@ -13,6 +13,7 @@ package regclient
 //@ ghost $mountOK bool
 //@ ghost $gets int
 //@ ghost $puts int
+//@ ghost $putOK bool
 //@ func (*RegClient).BlobHead(ctx, r, d) (b, err)
 //@   trusted ghost bookkeeping only
 //@   effect $headDone = true
@@ -27,6 +28,7 @@ package regclient
 //@ func (*RegClient).BlobPut(ctx, r, d, rdr) (dOut, err)
 //@   trusted ghost bookkeeping only
 //@   effect $puts = $puts + 1
+//@   effect $putOK = (err == nil)
 
 // the source is read only if the repositories differ, the target HEAD failed, and (on the same
 // registry) the mount was attempted and refused
@@ -46,12 +48,13 @@ package regclient
 //@   infunc \)\.BlobCopy$
 //@   requires same-registry-only: ref.EqualRegistry(refSrc, refTgt) && $headDone && !$headOK
 //@ func (*RegClient).BlobCopy(ctx, refSrc, refTgt, d, opts) (err)
-//@   prop C14
+//@   prop C14, C03
 //@   entry-assume !$headDone && !$mountDone && !$mountOK && $gets == 0 && $puts == 0
 //@   ensures at-most-one-transfer: $gets <= 1 && $puts <= 1 && $puts <= $gets
 //@   ensures same-repository-moves-nothing: ref.EqualRepository(refSrc, refTgt) ==> $gets == 0 && $puts == 0 && !$mountDone && !$headDone
 //@   ensures present-moves-nothing: $headDone && $headOK ==> $gets == 0 && $puts == 0 && !$mountDone
 //@   ensures granted-mount-moves-nothing: $mountDone && $mountOK ==> $gets == 0 && $puts == 0
+//@   ensures success-means-present: err == nil ==> ref.EqualRepository(refSrc, refTgt) || ($headDone && $headOK) || ($mountDone && $mountOK) || ($puts == 1 && $putOK)
 //@   ensures mount-attempted-when-possible: $gets > 0 && ref.EqualRegistry(refSrc, refTgt) ==> $mountDone
 
 // ---- C04/C03: the manifest is pushed only after every child task reported success ----
@@ -65,7 +68,7 @@ package regclient
 //@ ghost $received int
 //@ ghost $allNil bool
 //@ func (*RegClient).imageCopyOpt(ctx, refSrc, refTgt, d, child, parents, opt) (err)
-//@   prop C04
+//@   prop C04, C03
 //@   entry-assume $spawned == 0 && $received == 0 && $allNil
 //@   on-go $spawned = $spawned + 1
 //@   on-recv waitCh: $received = $received + 1
@@ -85,7 +88,7 @@ package regclient
 //@   loop 6 ()
 //@     invariant counter: waitCount >= 0 && waitCount == $spawned - $received && (err == nil ==> $allNil)
 //@ callsite (*RegClient).ManifestPut(ctx, r, m, opts)
-//@   prop C04
+//@   prop C04, C03
 //@   name ManifestPut/imageCopyOpt
 //@   in ~
 //@   infunc \)\.imageCopyOpt$
@@ -96,27 +99,27 @@ package regclient
 // one value on waitCh on every path (index entry, config, layer, referrer, digest-tag tasks)
 //@ ghost $sent int
 //@ func (*RegClient).imageCopyOpt$3
-//@   prop C04
+//@   prop C04, C03
 //@   entry-assume $sent == 0
 //@   on-send waitCh: $sent = $sent + 1
 //@   ensures one-send: $sent == 1
 //@ func (*RegClient).imageCopyOpt$4
-//@   prop C04
+//@   prop C04, C03
 //@   entry-assume $sent == 0
 //@   on-send waitCh: $sent = $sent + 1
 //@   ensures one-send: $sent == 1
 //@ func (*RegClient).imageCopyOpt$5
-//@   prop C04
+//@   prop C04, C03
 //@   entry-assume $sent == 0
 //@   on-send waitCh: $sent = $sent + 1
 //@   ensures one-send: $sent == 1
 //@ func (*RegClient).imageCopyOpt$6
-//@   prop C04
+//@   prop C04, C03
 //@   entry-assume $sent == 0
 //@   on-send waitCh: $sent = $sent + 1
 //@   ensures one-send: $sent == 1
 //@ func (*RegClient).imageCopyOpt$7
-//@   prop C04
+//@   prop C04, C03
 //@   entry-assume $sent == 0
 //@   on-send waitCh: $sent = $sent + 1
 //@   ensures one-send: $sent == 1
